@@ -755,6 +755,9 @@ func (e *Engine) MessageReceived(ctx context.Context, p peer.ID, m bsmsg.BitSwap
 	e.lock.Lock()
 
 	if m.Full() {
+		for _, w := range e.peerLedger.WantlistForPeer(p) {
+			e.peerRequestQueue.Remove(w.Cid, p)
+		}
 		e.peerLedger.ClearPeerWantlist(p)
 	}
 
